@@ -122,11 +122,15 @@ prop("C04",
 
 
 prop("C05",
-     [dict(name="C05", src="rcu.cpp", cxxflags=["-DMODE_C05"], deadline=dict(quick=100, thorough=480))],
+     [dict(name="C05", src="rcu.cpp", cxxflags=["-DMODE_C05"], deadline=dict(quick=100, thorough=480)),
+      dict(name="C05_allocfaults", src="rcu.cpp", cxxflags=["-DMODE_C05", "-DALLOC_FAULTS"], deadline=dict(quick=60, thorough=300),
+           no_until_exhaustive=True)],
      SCHED_RULE + " Programs: list prefilled with 2-3 elements; 1-2 traversers (read or write handle) pausing on "
      "each element, an eraser (1st / 2nd / last / all elements, double erase, erase+push), 0-2 short-lived handles "
      "whose release triggers reclamation, second erasers/pushers; weak-CAS failures and stale reads of the relaxed "
-     "log-head load are deviations of the same budget.",
+     "log-head load are deviations of the same budget. Second harness: the same programs over an allocator whose "
+     "n-th allocation fails (every n, one failure per run; the failed operation is caught and the handle reused), "
+     "explored with up to 1 (thorough 2) further deviations.",
      "Real rcu_guarded<rcu_list<Val>>. Oracles: quarantine arena (never reuses freed memory within an execution; "
      "any instrumented plain or atomic access to a freed node or log record is reported), element check word, the "
      "statement taken literally (no erased node is freed while a handle whose first access returned before that "
